@@ -35,7 +35,8 @@ Record arith (A : Type) : Type := MkArith {
   ar_neg : A -> A;
   ar_ofZ : Z -> A;
   ar_pi : A;
-  ar_sqrt : A -> A;
+  ar_sqrt : A -> A;          (* math.sqrt *)
+  ar_powhalf : A -> A;       (* x ** 0.5 (libm pow) *)
   ar_eqb : A -> A -> bool
 }.
 Arguments ar_add {A} _ _ _.
@@ -46,12 +47,21 @@ Arguments ar_neg {A} _ _.
 Arguments ar_ofZ {A} _ _.
 Arguments ar_pi {A} _.
 Arguments ar_sqrt {A} _ _.
+Arguments ar_powhalf {A} _ _.
 Arguments ar_eqb {A} _ _ _.
 
 Definition Reqb (a b : R) : bool := if Req_EM_T a b then true else false.
 
 Definition RA : arith R :=
-  MkArith R Rplus Rminus Rmult Rdiv Ropp IZR PI sqrt Reqb.
+  MkArith R Rplus Rminus Rmult Rdiv Ropp IZR PI sqrt sqrt Reqb.
+
+(* the ROUNDED reading: every operation is the exact real operation followed by the rounding function rnd (binary64
+   round-to-nearest-even in Proofs/GeomPFloat.v); x ** 2 is a rounded multiplication, math.sqrt a rounded square root,
+   x ** 0.5 the function powhalf (libm's pow, characterised only by an accuracy hypothesis); negation and the small
+   integer literals are exact; math.pi is the rounded value of pi *)
+Definition RndA (rnd powhalf : R -> R) : arith R :=
+  MkArith R (fun a b => rnd (a + b)%R) (fun a b => rnd (a - b)%R) (fun a b => rnd (a * b)%R) (fun a b => rnd (a / b)%R)
+          Ropp IZR (rnd PI) (fun x => rnd (sqrt x)) powhalf Reqb.
 
 Definition float_ofZ (z : Z) : float :=
   match z with
@@ -65,7 +75,7 @@ Definition float_pi : float := 0x1.921fb54442d18p+1%float.
 
 Definition FA : arith float :=
   MkArith float PrimFloat.add PrimFloat.sub PrimFloat.mul PrimFloat.div PrimFloat.opp
-          float_ofZ float_pi PrimFloat.sqrt PrimFloat.eqb.
+          float_ofZ float_pi PrimFloat.sqrt PrimFloat.sqrt PrimFloat.eqb.
 
 (* ------------------------------------------------------------------ the expression language *)
 Inductive gexpr : Type :=
@@ -120,7 +130,7 @@ Section Eval.
     | GNeg a => ar_neg ar (eval a env)
     | GPow a n => gpow (eval a env) n
     | GSqrt a => ar_sqrt ar (eval a env)
-    | GPowHalf a => ar_sqrt ar (eval a env)
+    | GPowHalf a => ar_powhalf ar (eval a env)
     end.
 
   Fixpoint evalc (noprox : bool) (c : gcond) (env : list A) : bool :=
